@@ -211,6 +211,27 @@ struct Explorer {
         delete b.idx;
     }
 
+    // family (d): every length of a run of consecutive misses. One out-of-box cell with multiplicity m1 (and a second one with m2 after
+    // an in-box hit) sits between in-box points in Morton order; further stored points follow the box. D = 2 only.
+    void family_missrun(int m1, int m2) {
+        if constexpr (D == 2) {
+            std::vector<std::pair<P, int>> cells = {{P{1, 0}, 1}, {P{0, 1}, m1}, {P{1, 1}, 3}, {P{2, 0}, 1}, {P{3, 0}, m2}, {P{2, 1}, 2}, {P{3, 1}, 1}, {P{0, 2}, 2}, {P{2, 2}, 1}, {P{5, 5}, 1}};
+            std::string spec = spec_str(cells);
+            Built b{};
+            if (!build(cells, spec, b)) return;
+            if (m1 == 255 && m2 == 0) run.sample(case_of(spec, "*boxes around the miss run*"));
+            if (prop == 13 || prop == 17) {
+                check_box(b, P{1, 0}, P{1, 1}, spec);   // code 1 and 3 inside, the run at code 2 outside
+                check_box(b, P{1, 0}, P{2, 1}, spec);   // both runs inside the Morton interval, partly outside the box
+                check_box(b, P{0, 0}, P{3, 1}, spec);
+                check_box(b, P{2, 0}, P{2, 2}, spec);
+                check_box(b, P{1, 0}, P{5, 5}, spec);
+            }
+            if (prop == 14 || prop == 17) for (T x = 0; x < 4; ++x) for (T y = 0; y < 3; ++y) check_contains(b, P{x, y}, spec);
+            delete b.idx;
+        }
+    }
+
     void replay(const std::map<std::string, std::string> &m) {
         std::string spec = m.at("cells");
         std::vector<std::pair<P, int>> cells;
@@ -250,6 +271,12 @@ struct Thunk {
     static const char *&name() { static const char *n = ""; return n; }
     static void run(Run &r, Cn &c, int prop, const Task &t) {
         Explorer<D, T, E> ex{r, c, prop, name()};
+        if (t.kind == 3) {
+            // lo0 selects the slice: single runs of every length 1..600, or every split of a set of critical totals into two runs
+            if (t.lo0 == 0) { for (int m = int(t.G); m < int(t.G) + 50 && m <= 600; ++m) { ex.family_missrun(m, 0); if (r.deadline_passed()) return; } }
+            else for (int total : {63, 64, 65, 66, 127, 128, 129, 130, 191, 192, 193, 255, 256, 257, 258, 319, 320, 321, 511, 512, 513}) for (int m1 = int(t.G); m1 <= total; m1 += 16) { ex.family_missrun(m1, total - m1); if (r.deadline_passed()) return; }
+            return;
+        }
         if (t.kind == 0) ex.family_mult(axis_values<D, T>(t.axis_id), {0, 1, 65}, t.fixed);
         else if (t.kind == 1) ex.family_grid(T(t.G), t.lo0);
         else {
@@ -279,7 +306,7 @@ int main(int argc, char **argv) {
     Cn cn(run);
     std::vector<CfgEntry> cfgs = {
         CFG("md<2,u32,1>", 0, 2, uint32_t, 1), CFG("md<2,u32,4>", 0, 2, uint32_t, 4), CFG("md<2,u64,16>", 0, 2, uint64_t, 16), CFG("md<3,u32,1>", 0, 3, uint32_t, 1),
-        CFG("md<3,u64,4>", 0, 3, uint64_t, 4), CFG("md<4,u64,1>", 0, 4, uint64_t, 1), CFG("md<2,u32,16>", 1, 2, uint32_t, 16), CFG("md<2,u64,1>", 1, 2, uint64_t, 1), CFG("md<2,u32,64>", 1, 2, uint32_t, 64),
+        CFG("md<3,u64,4>", 0, 3, uint64_t, 4), CFG("md<4,u64,1>", 0, 4, uint64_t, 1), CFG("md<2,u32,16>", 1, 2, uint32_t, 16), CFG("md<2,u64,1>", 1, 2, uint64_t, 1), CFG("md<2,u32,64>", 2, 2, uint32_t, 64), CFG("md<2,u64,32>", 2, 2, uint64_t, 32),
     };
     // self-check of the harness's Morton code against the library's on a few points (harness error, never a violation)
     {
@@ -310,6 +337,11 @@ int main(int argc, char **argv) {
     for (size_t c = 0; c < cfgs.size(); ++c) {
         if (cfgs[c].tier == 1 && !thorough) continue;
         size_t D = cfgs[c].D;
+        if (cfgs[c].tier == 2 && !thorough) {   // Epsilon 32 / 64: quick tier runs only the miss-run family
+            for (long m = 1; m <= 600; m += 50) { Task t{int(c), 3, {}, 0, m, 0, {}}; tasks.push_back(t); }
+            if (!asan) for (long off = 0; off < 16; ++off) { Task t{int(c), 3, {}, 0, off, 1, {}}; tasks.push_back(t); }
+            continue;
+        }
         // (a) multiplicity vectors {0,1,65}^cells over axis^D; split by the first two digits
         if (D <= 3)
             for (int axis_id = 0; axis_id < (thorough ? 3 : (D == 2 && c == 0 ? 3 : 1)); ++axis_id) {
@@ -324,6 +356,11 @@ int main(int argc, char **argv) {
         else grids = {4};
         if (asan && !thorough) { if (D == 2) grids = {16}; else if (D == 3) grids = {4}; }
         for (long G : grids) for (long lo0 = 0; lo0 < G; ++lo0) { Task t{int(c), 1, {}, 0, G, lo0, {}}; tasks.push_back(t); }
+        // (d) miss-run lengths (2D): every run length 1..600, and every split of the critical totals into two runs
+        if (D == 2) {
+            for (long m = 1; m <= 600; m += 50) { Task t{int(c), 3, {}, 0, m, 0, {}}; tasks.push_back(t); }
+            if (!asan || thorough) for (long off = 0; off < 16; ++off) { Task t{int(c), 3, {}, 0, off, 1, {}}; tasks.push_back(t); }
+        }
         // (c) grid with an enumerated window (thorough): 16x16 with a 3x3 window of {removed, x1, x2}
         if (thorough && D == 2 && c <= 1 && !asan) {
             for (int w = 0; w < 19683; w += 27) {
@@ -341,7 +378,7 @@ int main(int argc, char **argv) {
     ev.states_counter = "point_multisets_indexed"; ev.transitions_counter = prop == 14 ? "contains_queries_checked" : "box_queries_checked";
     ev.nontrivial_counter = "multisets_with_2plus_distinct_points";
     ev.rule = "real miss_threshold=64. (a) every multiplicity vector in {0,1,65}^cells over 3x3 (2D) / 2x2x2 (3D) cell universes (65 copies of an out-of-box cell force the bigmin skip), several coordinate sets incl. the largest encodable coordinate; "
-              "(b) full grids 16x16, 32x32, 8x8x8, 4^4 with every axis-aligned box; (c, thorough) 16x16 grid with every {removed,x1,x2} pattern of a 3x3 window. " +
+              "(b) full grids 16x16, 32x32, 8x8x8, 4^4 with every axis-aligned box; (c, thorough) 16x16 grid with every {removed,x1,x2} pattern of a 3x3 window; (d) miss-run family: a run of m consecutive out-of-box points for every m in 1..600 and every split (step 16) of the totals {63..66,127..130,191..193,255..258,319..321,511..513} into two runs separated by an in-box hit, also for Epsilon 32 and 64. " +
               std::string(prop == 14 ? "Every cell of the universe and cells just outside it / at the largest encodable coordinate are passed to contains(); oracle: membership in the multiset."
                                      : "Every box over the axis values is enumerated; oracle: brute-force filter sorted by the harness's own Morton code, with multiplicity; iteration must end within n+2 steps.") +
               " State = one indexed multiset; transition = one query; non-trivial = at least two distinct points.";
